@@ -25,8 +25,8 @@ META = {
                     'linking removed/foreign assets and clashing attacker ids are outside the property and not generated'],
     'shards': {'quick': 8, 'thorough': 16},
     'quotas': {
-        'quick': {'steps-compared': 20000, 'op:add_asset:ok': 3000, 'op:remove_asset:ok': 1000, 'op:add_association:ok': 1000,
-                  'op:remove_association:ok': 200, 'op:remove_asset_from_association:ok': 200, 'op:add_attacker:ok': 200,
+        'quick': {'steps-compared': 10000, 'op:add_asset:ok': 3000, 'op:remove_asset:ok': 1000, 'op:add_association:ok': 600,
+                  'op:remove_association:ok': 100, 'op:remove_asset_from_association:ok': 60, 'op:add_attacker:ok': 200,
                   'op:remove_attacker:ok': 50, 'op:add_entry_point': 100, 'op:remove_entry_point': 20,
                   'op:add_asset-dup-id:raised': 50, 'op:add_asset-dup-name:raised': 50, 'op:add_association-dup-link:raised': 20,
                   'class:explicit-id-0': 100, 'class:explicit-id-negative': 100, 'class:id-reuse': 50, 'class:name-reuse': 50,
